@@ -152,76 +152,79 @@ def run_impl_cases(cases, timeout=900):
     if not cases:
         return []
     nsh = max(1, min(core.NCPU, len(cases) // 8))
-    res = core.run_impl_parallel("vf.impl.c16_driver", [{"cases": cases[i::nsh]} for i in range(nsh)], timeout=timeout)
+
+    def one(i):
+        sub = cases[i::nsh]
+        try:
+            return core.run_impl("vf.impl.c16_driver", {"cases": sub}, timeout=timeout)["results"]
+        except Exception as ex:  # the driver itself died (import error, timeout): an observation, not a harness crash
+            return [{"ok": False, "error": "driver died: %s" % str(ex)[-300:]} for _ in sub]
+    import concurrent.futures as cf
+    with cf.ThreadPoolExecutor(max_workers=core.NCPU) as ex:
+        res = list(ex.map(one, range(nsh)))
     obs = [None] * len(cases)
     for i, r in enumerate(res):
-        for j, o in zip(range(i, len(cases), nsh), r["results"]):
+        for j, o in zip(range(i, len(cases), nsh), r):
             obs[j] = o
     return obs
 
 
 def run_one(case):
-    return core.run_impl("vf.impl.c16_driver", {"cases": [case]}, timeout=300)["results"][0]
+    return run_impl_cases([case], timeout=300)[0]
 
 
 def strip(case):
     return {k: case[k] for k in ("nv", "faces", "coords", "singus", "feat")}
 
 
-def shrink(case, key):
-    """Greedy reduction that keeps the case a valid surface and the failure class: drop singularities, drop
-    feature edges, delete faces."""
-    def fails(c):
-        if G.validate(c["nv"], c["faces"]) is not None:
-            return False
-        o = run_one(c)
-        f = oracle(c, o)
-        return bool(f) and classify(c, o, f) == key
+def _candidates(cur):
+    out = []
+    for i in range(len(cur["singus"])):
+        out.append(dict(cur, singus=cur["singus"][:i] + cur["singus"][i + 1:]))
+    if cur["feat"]:
+        for i in range(len(cur["feat"])):
+            out.append(dict(cur, feat=cur["feat"][:i] + cur["feat"][i + 1:]))
+    for f in range(len(cur["faces"])):
+        faces = cur["faces"][:f] + cur["faces"][f + 1:]
+        if not faces:
+            continue
+        used = sorted({v for F in faces for v in F})
+        ren = {v: i for i, v in enumerate(used)}
+        if any(s not in ren for s in cur["singus"]):
+            continue
+        if cur["feat"] and any(a not in ren or b not in ren for a, b in cur["feat"]):
+            continue
+        cand = {"nv": len(used), "faces": [[ren[v] for v in F] for F in faces],
+                "coords": [cur["coords"][v] for v in used], "singus": [ren[s] for s in cur["singus"]],
+                "feat": None if cur["feat"] is None else [sorted((ren[a], ren[b])) for a, b in cur["feat"]]}
+        if cand["feat"]:
+            und = {tuple(sorted((F[i], F[(i + 1) % 3]))) for F in cand["faces"] for i in range(3)}
+            if any(tuple(e) not in und for e in cand["feat"]):
+                continue
+        out.append(cand)
+    return [c for c in out if G.validate(c["nv"], c["faces"]) is None]
+
+
+def shrink(case, key, rounds=8):
+    """Greedy reduction that keeps the case a valid surface and the failure class: per round, every single deletion
+    (a singularity, a feature edge, a face) is tried in one batch of implementation runs."""
     cur = strip(case)
-    budget = 60
-    changed = True
-    while changed and budget > 0:
-        changed = False
-        for i in range(len(cur["singus"])):
-            cand = dict(cur, singus=cur["singus"][:i] + cur["singus"][i + 1:])
-            budget -= 1
-            if budget > 0 and fails(cand):
-                cur, changed = cand, True
-                break
-        if changed:
-            continue
-        if cur["feat"]:
-            for i in range(len(cur["feat"])):
-                cand = dict(cur, feat=cur["feat"][:i] + cur["feat"][i + 1:])
-                budget -= 1
-                if budget > 0 and fails(cand):
-                    cur, changed = cand, True
-                    break
-        if changed:
-            continue
-        for f in range(len(cur["faces"])):
-            faces = cur["faces"][:f] + cur["faces"][f + 1:]
-            used = sorted({v for F in faces for v in F})
-            if not faces:
-                continue
-            ren = {v: i for i, v in enumerate(used)}
-            if any(s not in ren for s in cur["singus"]):
-                continue
-            if cur["feat"] and any(a not in ren or b not in ren for a, b in cur["feat"]):
-                continue
-            cand = {"nv": len(used), "faces": [[ren[v] for v in F] for F in faces],
-                    "coords": [cur["coords"][v] for v in used], "singus": [ren[s] for s in cur["singus"]],
-                    "feat": None if cur["feat"] is None else [sorted((ren[a], ren[b])) for a, b in cur["feat"]]}
-            if cand["feat"]:
-                und = {tuple(sorted((F[i], F[(i + 1) % 3]))) for F in cand["faces"] for i in range(3)}
-                if any(tuple(e) not in und for e in cand["feat"]):
-                    continue
-            budget -= 1
-            if budget <= 0:
-                break
-            if fails(cand):
-                cur, changed = cand, True
-                break
+    for _ in range(rounds):
+        cands = _candidates(cur)
+        if not cands:
+            break
+        obs = run_impl_cases(cands, timeout=300)
+        nxt = None
+        for c, o in zip(cands, obs):
+            f = oracle(c, o)
+            if f and classify(c, o, f) == key:
+                if nxt is None or len(c["faces"]) < len(nxt["faces"]):
+                    nxt = c
+                    if len(c["faces"]) < len(cur["faces"]):
+                        break
+        if nxt is None:
+            break
+        cur = nxt
     return cur
 
 
@@ -230,7 +233,7 @@ def handcrafted():
     out = []
     nv, faces = G.seed_tetra()
     co = [[0, 0, 0], [4, 0, 0], [0, 4, 0], [0, 0, 4]]
-    for s in ([], [2], [3, 3]):
+    for s in ([], [2], [3, 3], [0, 1], [0, 1, 2]):
         out.append({"nv": nv, "faces": faces, "coords": co, "singus": s, "feat": None})
     nv, faces = G.seed_bipyramid(4)
     co = [[0, 0, 3], [0, 0, -3], [2, 0, 0], [0, 2, 0], [-2, 0, 0], [0, -2, 0]]
@@ -282,7 +285,9 @@ def run(ctx):
     max_faces = 80 if quick else 120
     while len(cases) < n_gen:
         cases.append(G.gen_case(ctx.rng, max_faces=max_faces))
+    ctx.log("running the implementation on %d cases" % len(cases))
     obs = run_impl_cases(cases, timeout=900 if quick else 3000)
+    ctx.log("implementation done")
 
     # ---- known finding witness replayed on the implementation
     wobs = run_one(WITNESS_SLIT)
@@ -316,6 +321,7 @@ def run(ctx):
     ctx.obligation("oracle: the property sentence restated by brute force holds of every observed output",
                    "oracle-on-implementation", True, "%d failing cases" % len(fails))
 
+    ctx.log("oracle done: %d failing cases" % len(fails))
     # ---- kernel-checked correspondence + checkers
     bad = []
     usable = [k for k, o in enumerate(obs) if o.get("ok")]
@@ -326,17 +332,20 @@ def run(ctx):
         bad = [usable[i] for i in (r or [])]
         if bad:
             # which check failed on the first few disagreeing cases
-            sub = bad[:6]
-            for code in sorted(CODES):
-                rr = ctx.run_cases("diag%d" % code, HEADER + "Definition chk (c : case) := has_code %d c.\n" % code,
-                                   [case_term(cases[k], obs[k]) for k in sub], "chk", case_type="case")
-                ctx.obligations.pop()  # diagnostic batches are not obligations
-                for i in (rr or []):
-                    ctx.log("case %d: check %d failed: %s | info %s singus %s feat %s" %
-                            (sub[i], code, CODES[code], cases[sub[i]]["info"], cases[sub[i]]["singus"], cases[sub[i]]["feat"]))
+            sub = bad[:5]
+            codes = sorted(CODES)
+            terms2 = ["(%s, %s)" % (zlit(code), case_term(cases[k], obs[k])) for k in sub for code in codes]
+            rr = ctx.run_cases("diag", HEADER + "Definition chk (p : Z * case) := has_code (fst p) (snd p).\n",
+                               terms2, "chk", case_type="(Z * case)", shard=len(codes))
+            ctx.obligations.pop()  # the diagnostic batch is not an obligation
+            for i in (rr or []):
+                k, code = sub[i // len(codes)], codes[i % len(codes)]
+                ctx.log("case %d: check %d failed: %s | info %s singus %s feat %s" %
+                        (k, code, CODES[code], cases[k]["info"], cases[k]["singus"], cases[k]["feat"]))
     else:
         ctx.obligation("correspondence batches", "correspondence", False, "model does not compile")
 
+    ctx.log("correspondence done: %d disagreeing cases" % len(bad))
     # ---- verdicts
     reported = set()
     known_idx = set()
@@ -350,7 +359,7 @@ def run(ctx):
         if ctx.known(key):
             ctx.report_known(key, ctx.known(key)["what"])
             continue
-        if len(reported) > 6:
+        if len(reported) > 3:
             continue
         small = shrink(cases[idx], key)
         o2 = run_one(small)
